@@ -14,24 +14,22 @@
     * `crcUpdate_append`          the driver's crc32 satisfies the streaming law the reader/writer rely on
     * `readStep_cont`, `reach_consumed`, `crc_record_checked`   after ANY bytes the running crc is `upd crc0 (consumed bytes)`; a crc
                                   record is rejected with a checksum error iff the stored value differs (reduction form)
-    * `replay_all`                one chunk (kept from round 1)
-    * `replay_rotating`           replay_all + offsets_match_writer + resume_suffix ACROSS ROTATIONS: from any writer state (log
-                                  start or any commit position with its crc) reading the current file and the later files the
-                                  writer lays out delivers exactly the appended events at the offsets Append returned, through any
-                                  number of ROTATE_TO/ROTATE_FROM boundaries and crc records (`sim` in Lemmas/BinlogSim is the
-                                  general simulation with an arbitrary continuation)
-    * `seek_resume`, `seek_nometa` the seek step of a resume with / without snapshot meta lands in that state
-    * `truncate_prefix`           the last chunk cut at ANY point behind its ROTATE_FROM header: replay ends without error and
-                                  delivers exactly the events that are complete in the cut — a prefix, never a partial event;
-                                  the excluded case (cut inside the header) is the known finding, `decide` witnesses at the end
+    * `replay_all`                one chunk (round 1)
+    * `replay_rotating` (via `sim`) from any writer state, through any number of rotations and crc records (round 2)
+    * `readAll_resume`, `readAll_from_commit`   `readAllFromPosition` END TO END: directory scan + sort (`scan_allFiles`), choice of
+                                  the chunk of the commit position (`indexByPos_split`), seek with checksum verification against the
+                                  snapshot meta (`seek_resume`, hypotheses discharged by the accounting invariant `Acc` over the
+                                  append decomposition `allFiles_append`/`splitC_inv`), replay of the remaining chunks:
+                                  `readAll (files of pre ++ post) (commit after pre, its meta) = ok (events of post at their offsets)`
+    * `readAll_from_start`        the same from offset 0 without meta: LevStart and tag are skipped (`step_start`, `step_tag`)
+    * `iter_files_layout`         one writer-loop iteration leaves on disk exactly `allFiles` (contents: `writeBuffer_split`)
     * `apNext_buff`               the layout's bytes are exactly what `putLevToBuffer` puts into the buffer (+ rotatePos entry)
-    * `commit_monotone`, `commit_all_synced_partial`, `commit_le_fsynced`   for every schedule of appends and loop iterations commit
-                                  offsets never decrease and never exceed the bytes that are in the files and covered by an fsync
-                                  (invariant `FsInv`: buffer accounting + rotatePos well-formedness `WF`)
-    * `append_after_stop_refused_or_durable`   any schedule, then the iteration that sees the shutdown request, then any schedule:
-                                  at the end of the stop iteration every byte an Append accepted is in the files and fsynced, and
-                                  every later Append is refused — no acknowledged append is lost (witness: the variant that stops
-                                  accepting only after the loop acknowledges an append nobody will write)
+    * `truncate_prefix`           last chunk cut anywhere behind its ROTATE_FROM header: exactly the complete events, no error
+    * `truncate_tail_files`       a chunk cut anywhere (event, crc record, ROTATE_TO) with ALL later files removed: exactly the
+                                  complete events of the remaining chunks, no error; excluded shape: cut inside a ROTATE_FROM header
+                                  (known finding, `decide` witnesses at the end)
+    * `commit_monotone`, `commit_all_synced_partial`, `commit_le_fsynced`   commits never decrease / never exceed the fsynced bytes
+    * `append_after_stop_refused_or_durable`   no acknowledged append is lost around shutdown
     * `putLev_no_panic`           a writer restarted in the first chunk never takes the out-of-range hashBuff2 slice
   Remaining gaps: see the comment block at the end.
 -/
@@ -39,6 +37,8 @@ import SH.Model.Binlog
 import SH.Lemmas.Binlog
 import SH.Lemmas.BinlogCut
 import SH.Lemmas.BinlogWriter
+import SH.Lemmas.BinlogAll
+import SH.Lemmas.BinlogWB
 open SH.Binlog
 namespace SH.C18
 
@@ -180,33 +180,8 @@ theorem truncate_prefix (cfg : Cfg) (hm : cfg.evMagic < 4294967296) (hsvc : cfg.
     (event, crc record, and — when it rotates — ROTATE_TO and ROTATE_FROM, with the rotation position recorded between them) -/
 theorem apNext_buff (cfg : Cfg) (w : WS) (a : Ap) :
     (apNext cfg w a).buff = w.buff ++ apA cfg w a ++ (if rotates cfg w a then apRT cfg w a ++ apRF cfg w a else []) ∧
-    (apNext cfg w a).rotPos = w.rotPos ++ (if rotates cfg w a then [(w.buff ++ apA cfg w a ++ apRT cfg w a).length] else []) := by
-  have hb := (apMid_fields cfg w a).2.1
-  by_cases hr : rotates cfg w a = true
-  · have hr' : needRotate cfg (putCrc cfg w (encEvent cfg.evMagic a.body) a.ts) = true := hr
-    have hrp : (apMid cfg w a).rotPos = w.rotPos := by
-      simp only [apMid, putCrc]; split <;> simp [addCrc, appendLev]
-    simp only [apNext, putBody, hr', if_true, hr]
-    have e : (addRotate cfg (putCrc cfg w (encEvent cfg.evMagic a.body) a.ts) a.ts a.h1 a.h2).buff
-        = w.buff ++ apA cfg w a ++ (apRT cfg w a ++ apRF cfg w a) ∧
-        (addRotate cfg (putCrc cfg w (encEvent cfg.evMagic a.body) a.ts) a.ts a.h1 a.h2).rotPos
-        = w.rotPos ++ [(w.buff ++ apA cfg w a ++ apRT cfg w a).length] := by
-      have hb' : (putCrc cfg w (encEvent cfg.evMagic a.body) a.ts).buff = w.buff ++ apA cfg w a := hb
-      have hrp' : (putCrc cfg w (encEvent cfg.evMagic a.body) a.ts).rotPos = w.rotPos := hrp
-      constructor
-      · simp only [addRotate, appendLev, levRotateSize, padded_rotTo, padded_rotFrom, hb', List.append_assoc]
-        rfl
-      · simp only [addRotate, appendLev, levRotateSize, padded_rotTo, padded_rotFrom, hb', hrp']
-        rfl
-    split <;> simp [e.1, e.2]
-  · have hr' : needRotate cfg (putCrc cfg w (encEvent cfg.evMagic a.body) a.ts) = false := by simpa [rotates, apMid] using hr
-    have hr2 : rotates cfg w a = false := by simpa using hr
-    have hrp : (apMid cfg w a).rotPos = w.rotPos := by
-      simp only [apMid, putCrc]; split <;> simp [addCrc, appendLev]
-    have hb' : (putCrc cfg w (encEvent cfg.evMagic a.body) a.ts).buff = w.buff ++ apA cfg w a := hb
-    have hrp' : (putCrc cfg w (encEvent cfg.evMagic a.body) a.ts).rotPos = w.rotPos := hrp
-    simp only [apNext, putBody, hr', hr2, Bool.false_eq_true, if_false]
-    split <;> simp [hb', hrp']
+    (apNext cfg w a).rotPos = w.rotPos ++ (if rotates cfg w a then [(w.buff ++ apA cfg w a ++ apRT cfg w a).length] else []) :=
+  apNext_buffL cfg w a
 
 /-- **seek with the snapshot meta.**  The file holds `A ++ R`, its header says it starts at `h.pos` with checksum `h.crc`, the
     meta of a commit names the position behind `A` and the checksum of everything up to there.  Then `readAndUpdateCRCIfNeed`
@@ -231,6 +206,251 @@ theorem seek_nometa (cfg : Cfg) (h : Hdr) (A R : Bytes) (ts : Nat) (hd : h.data 
   have h1 : h.pos < h.pos + (A.length : Int) := by omega
   have h3 : (h.pos + (A.length : Int) - h.pos).toNat = A.length := by omega
   simp [seek, h1, h3, h4, t2]
+
+
+/-- **truncate_tail_files.**  The appends are `pre ++ post`; of the chunk in which `post` starts only the first `t` bytes behind
+    that point are left and EVERY later chunk is removed (a crash/cleanup that lost whole files, the last remaining one possibly
+    cut — inside an event, a crc record or its ROTATE_TO).  Replay ends without error and delivers the events of `pre` followed
+    by exactly the events of `post` that are complete in what is left of that chunk: a prefix of the appended list, never a
+    partial event.  (`t` = the whole rest of the chunk: only later files are missing, every event of the chunk is delivered.)
+    The one excluded shape is a file cut inside its own ROTATE_FROM header: the layout keeps `apRF` whole (known finding). -/
+theorem truncate_tail_files (cfg : Cfg) (hm : cfg.evMagic < 4294967296) (hsvc : cfg.evMagic ∉ serviceMagics)
+    (pre post : List Ap) (w : WS) (s : RS) (fuel t : Nat)
+    (hsz : ∀ a ∈ pre ++ post, a.body.length < 4294967296 ∧ a.ts < 4294967296)
+    (hbound : (runAll cfg w pre).offG < 9223372036854775808)
+    (ht : t ≤ (layoutC cfg (runAll cfg w pre) post ([], [])).1.length)
+    (h : At s w.offG w.crc (layoutC cfg w pre ((layoutC cfg (runAll cfg w pre) post ([], [])).1.take t, [])).1)
+    (hf : (layoutC cfg w pre ((layoutC cfg (runAll cfg w pre) post ([], [])).1.take t, [])).1.length / 4 + 2 ≤ fuel) :
+    (finish cfg (readLoop cfg fuel s)
+        ((layoutC cfg w pre ((layoutC cfg (runAll cfg w pre) post ([], [])).1.take t, [])).2.map hdrOf)).2.2.1 = none ∧
+    (finish cfg (readLoop cfg fuel s)
+        ((layoutC cfg w pre ((layoutC cfg (runAll cfg w pre) post ([], [])).1.take t, [])).2.map hdrOf)).2.2.2.1.evs
+      = ((offsR cfg (runAll cfg w pre) post).take (completeC cfg (runAll cfg w pre) post t)).reverse ++
+        ((offsR cfg w pre).reverse ++ s.eng.evs) := by
+  obtain ⟨s', fuel', hat, hfl, hev, hfin⟩ := sim cfg hm hsvc pre w (_, []) s fuel
+    (fun a ha => hsz a (List.mem_append_left _ ha)) hbound h hf
+  have hlen : ((layoutC cfg (runAll cfg w pre) post ([], [])).1.take t).length = t := by simp; omega
+  have hc := read_chunk_cut cfg hm hsvc post (runAll cfg w pre) s' t fuel' (fun a ha => hsz a (List.mem_append_right _ ha)) hat
+    (by simp only [hlen] at hfl; exact hfl) ht
+  rw [hfin]
+  simp only [finish, List.map_nil, hc.1, readFiles, hc.2, hev, and_self]
+
+
+/-! ### readAllFromPosition end to end (Lemmas/BinlogAll) -/
+
+theorem runAll_append (cfg : Cfg) : ∀ (pre post : List Ap) (w : WS), runAll cfg w (pre ++ post) = runAll cfg (runAll cfg w pre) post
+  | [], _, _ => rfl
+  | a :: as, post, w => by simp only [List.cons_append, runAll]; exact runAll_append cfg as post _
+
+theorem readFiles_first (cfg : Cfg) (h : Hdr) (hs : List Hdr) (fromPos : Int) (si : Option Meta) (ts : Nat) (eng : Eng) (p : Int) (c : UInt32) :
+    readFiles cfg (h :: hs) true fromPos si ts eng p c = finish cfg (readFile cfg h fromPos si ts eng) hs := by
+  unfold finish
+  rw [readFiles]
+  rfl
+
+/-- **readAll_resume (replay_rotating stated on `readAllFromPosition`).**  `w`/`c0` describe the chunk being written when the
+    appends start (position/checksum accounting `Acc`, header scans `CurOK`).  The appends are `pre ++ post`; the files are the
+    ones the writer lays out; a commit after `pre` announced `(wk.offG, wk.crc)`.  Then `readAll files wk.offG meta` — directory
+    scan and sort, choice of the chunk by `getBinlogIndexByPosition`, seek with checksum verification against the meta, replay of
+    the rest of that chunk and of all later chunks — ends without error and delivers exactly the events of `post`, in order, at
+    the offsets `Append` returned, ending at the writer's final position and checksum. -/
+theorem readAll_resume (cfg : Cfg) (hm : cfg.evMagic < 4294967296) (hsvc : cfg.evMagic ∉ serviceMagics)
+    (hupd : ∀ c a b, cfg.upd (cfg.upd c a) b = cfg.upd c (a ++ b))
+    (pre post : List Ap) (w : WS) (c0 : Cur) (ts0 mts : Nat)
+    (hsz : ∀ a ∈ pre ++ post, a.body.length < 4294967296 ∧ a.ts < 4294967296)
+    (hb : (runAll cfg w (pre ++ post)).offG < 9223372036854775808)
+    (ha : Acc cfg w c0) (hk : CurOK cfg c0) (wk : WS) (hwk : wk = runAll cfg w pre) (r : RA)
+    (hr : r = readAll cfg (allFiles cfg w (pre ++ post) c0.bytes) wk.offG (some ⟨wk.offG, wk.crc, mts⟩) ts0 ⟨wk.offG, [], []⟩) :
+    r.err = none ∧ r.eng.evs = (offsR cfg wk post).reverse ∧ r.pos = ((runAll cfg wk post).offG : Int) ∧
+      r.crc = (runAll cfg wk post).crc := by
+  subst hwk
+  generalize hwk : runAll cfg w pre = wk at hr ⊢
+  have hbk : (runAll cfg wk post).offG < 9223372036854775808 := by rw [← hwk, ← runAll_append]; exact hb
+  have hbk0 : wk.offG < 9223372036854775808 := Nat.lt_of_le_of_lt (runAll_mono cfg post wk) hbk
+  obtain ⟨hscan, hinc⟩ := scan_allFiles cfg w (pre ++ post) c0 hb ha hk
+  obtain ⟨hacc, hck⟩ := splitC_inv cfg hupd pre w c0 (by rw [hwk]; exact hbk0) ha hk
+  rw [hwk] at hacc
+  -- the files, split at the commit position
+  have hfiles := allFiles_append cfg pre post w c0
+  rw [hwk] at hfiles
+  generalize hD : (splitC cfg w pre c0).1 = D at hfiles
+  generalize hcK : (splitC cfg w pre c0).2 = cK at hfiles hacc hck
+  have hlat := laterOK_facts cfg _ _ (layout_laterOK cfg post wk hbk)
+  let c2 := (layoutC cfg wk post ([], [])).1
+  let l2 := (layoutC cfg wk post ([], [])).2
+  have hcf : cK.bytes ++ c2 = cK.hd ++ (cK.body ++ c2) := by simp [Cur.bytes, List.append_assoc]
+  have hcpos : (gh (cK.bytes ++ c2)).pos = (cK.pos : Int) := by rw [hcf]; exact (hck _).2.1
+  have hccrc : (gh (cK.bytes ++ c2)).crc = cK.crc := by rw [hcf]; exact (hck _).2.2
+  have hH : (allFiles cfg w (pre ++ post) c0.bytes).map gh = (D.map gh ++ [gh (cK.bytes ++ c2)]) ++ l2.map gh := by
+    rw [hfiles]; simp [allFiles, c2, l2]
+  rw [hH] at hscan hinc
+  have hPk : (cK.pos : Int) ≤ (wk.offG : Int) := by have := hacc.1; omega
+  -- every file up to the current one starts at or before the commit position, the next one behind it
+  have hle : ∀ h ∈ D.map gh ++ [gh (cK.bytes ++ c2)], h.pos ≤ (wk.offG : Int) := by
+    intro h hh
+    rcases List.mem_append.mp hh with hh | hh
+    · have := (List.pairwise_append.mp (List.pairwise_append.mp hinc).1).2.2 h hh (gh (cK.bytes ++ c2)) (by simp)
+      omega
+    · simp only [List.mem_singleton] at hh; subst hh; omega
+  have hgt : ∀ h ∈ (l2.map gh).head?, (wk.offG : Int) < h.pos := by
+    intro h hh
+    exact hlat.2.2.2 h (List.mem_of_mem_head? hh)
+  have hidx := indexByPos_split (wk.offG : Int) (D.map gh ++ [gh (cK.bytes ++ c2)]) (l2.map gh) 0 0 (by simp) hle hgt
+  have hidx' : indexByPos (wk.offG : Int) ((D.map gh ++ [gh (cK.bytes ++ c2)]) ++ l2.map gh) 0 0 = D.length := by
+    rw [hidx]; simp
+  have hdrop : ((D.map gh ++ [gh (cK.bytes ++ c2)]) ++ l2.map gh).drop D.length = gh (cK.bytes ++ c2) :: l2.map hdrOf := by
+    rw [List.append_assoc, List.drop_append_of_le_length (by simp), List.drop_of_length_le (by simp)]
+    simp only [List.nil_append, List.singleton_append]
+    rw [hlat.2.1]
+  -- the seek
+  have hseek := seek_resume cfg (gh (cK.bytes ++ c2)) cK.bytes c2 ⟨wk.offG, wk.crc, mts⟩ ts0 (gh_data _)
+    (by simp only [hcpos]; have := hacc.1; omega) (by rw [hccrc]; exact hacc.2)
+  -- the replay
+  have hat : At { pos := (wk.offG : Int), crc := wk.crc, rest := c2, slack := c2.length % 4, dk := false, ts := mts, commitPos := 0,
+                  eng := ⟨wk.offG, [], []⟩ } wk.offG wk.crc c2 := ⟨rfl, rfl, rfl, rfl, rfl, rfl⟩
+  have hrep := replay_rotating cfg hm hsvc post wk _ (c2.length / 2 + 4)
+    (fun a ha' => hsz a (List.mem_append_right _ ha')) hbk hat
+    (by show (layoutC cfg wk post ([], [])).1.length / 4 + 2 ≤ (layoutC cfg wk post ([], [])).1.length / 2 + 4; omega)
+  -- unfold readAll
+  obtain ⟨h0, hs, hcons⟩ : ∃ h0 hs, (D.map gh ++ [gh (cK.bytes ++ c2)]) ++ l2.map gh = h0 :: hs := by
+    cases hl : (D.map gh ++ [gh (cK.bytes ++ c2)]) ++ l2.map gh with
+    | nil => simp at hl
+    | cons a b => exact ⟨a, b, rfl⟩
+  have hlow : ¬ ((wk.offG : Int) < h0.pos) := by
+    have hmem : h0 ∈ D.map gh ++ [gh (cK.bytes ++ c2)] := by
+      cases hd : D.map gh ++ [gh (cK.bytes ++ c2)] with
+      | nil => simp at hd
+      | cons a b => rw [hd] at hcons; simp at hcons; rw [← hcons.1]; simp
+    have := hle h0 hmem; omega
+  rw [hcons] at hscan hidx' hdrop
+  simp only [readAll, hscan, hlow, if_false, hidx', Int.lt_irrefl, or_false, ne_eq, not_true_eq_false, hdrop, readFiles_first,
+    readFile, hseek] at hr
+  rw [hr]
+  exact ⟨hrep.1, by simpa using hrep.2.1, hrep.2.2.1, hrep.2.2.2⟩
+
+
+/-- the writer state with which a session on a fresh binlog starts: behind the 44-byte head, checksum of the head -/
+def StartsAt (cfg : Cfg) (w : WS) (sy ty : Bytes) : Prop := w.offG = 44 ∧ w.crc = cfg.upd 0 (initBytes cfg sy ty)
+
+theorem initCur_acc (cfg : Cfg) (w : WS) (sy ty : Bytes) (hsy : sy.length = 16) (hty : ty.length = 16) (h : StartsAt cfg w sy ty) :
+    Acc cfg w (initCur cfg sy ty) := by
+  refine ⟨?_, ?_⟩
+  · simp [initCur, Cur.bytes, initBytes, hsy, hty, h.1]
+  · simp [initCur, Cur.bytes, h.2]
+
+/-- **readAll = ok (suffix) for every committed position.**  The binlog is the head written by `CreateEmptyFsBinlog` followed by
+    what the writer lays out for `pre ++ post`; a commit after `pre` carried `(offset, crc)` of the writer at that moment.
+    `readAllFromPosition(offset, meta)` delivers exactly the events of `post` at the offsets `Append` returned. -/
+theorem readAll_from_commit (cfg : Cfg) (hm : cfg.evMagic < 4294967296) (hsvc : cfg.evMagic ∉ serviceMagics)
+    (hupd : ∀ c a b, cfg.upd (cfg.upd c a) b = cfg.upd c (a ++ b)) (hs : cfg.schema < 4294967296)
+    (pre post : List Ap) (w : WS) (sy ty : Bytes) (hsy : sy.length = 16) (hty : ty.length = 16) (hw : StartsAt cfg w sy ty)
+    (ts0 mts : Nat) (hsz : ∀ a ∈ pre ++ post, a.body.length < 4294967296 ∧ a.ts < 4294967296)
+    (hb : (runAll cfg w (pre ++ post)).offG < 9223372036854775808) (wk : WS) (hwk : wk = runAll cfg w pre) (r : RA)
+    (hr : r = readAll cfg (allFiles cfg w (pre ++ post) (initBytes cfg sy ty)) wk.offG (some ⟨wk.offG, wk.crc, mts⟩) ts0 ⟨wk.offG, [], []⟩) :
+    r.err = none ∧ r.eng.evs = (offsR cfg wk post).reverse ∧ r.pos = ((runAll cfg wk post).offG : Int) ∧
+      r.crc = (runAll cfg wk post).crc :=
+  readAll_resume cfg hm hsvc hupd pre post w (initCur cfg sy ty) ts0 mts hsz hb (initCur_acc cfg w sy ty hsy hty hw)
+    (initCur_ok cfg sy ty hs hsy) wk hwk r (by rw [hr]; simp [initCur, Cur.bytes])
+
+/-- **replay from offset 0.**  `readAllFromPosition(0, no meta)` on the same files: LevStart and the tag are skipped, then every
+    appended event is delivered at the offset `Append` returned, through all rotations. -/
+theorem readAll_from_start (cfg : Cfg) (hm : cfg.evMagic < 4294967296) (hsvc : cfg.evMagic ∉ serviceMagics)
+    (hupd : ∀ c a b, cfg.upd (cfg.upd c a) b = cfg.upd c (a ++ b)) (hs : cfg.schema < 4294967296)
+    (as : List Ap) (w : WS) (sy ty : Bytes) (hsy : sy.length = 16) (hty : ty.length = 16) (hw : StartsAt cfg w sy ty) (ts0 : Nat)
+    (hsz : ∀ a ∈ as, a.body.length < 4294967296 ∧ a.ts < 4294967296)
+    (hb : (runAll cfg w as).offG < 9223372036854775808) (r : RA)
+    (hr : r = readAll cfg (allFiles cfg w as (initBytes cfg sy ty)) 0 none ts0 ⟨0, [], []⟩) :
+    r.err = none ∧ r.eng.evs = (offsR cfg w as).reverse ∧ r.pos = ((runAll cfg w as).offG : Int) ∧ r.crc = (runAll cfg w as).crc := by
+  have hk := initCur_ok cfg sy ty hs hsy
+  have ha := initCur_acc cfg w sy ty hsy hty hw
+  obtain ⟨hscan, hinc⟩ := scan_allFiles cfg w as (initCur cfg sy ty) hb ha hk
+  have hcb : (initCur cfg sy ty).bytes = initBytes cfg sy ty := by simp [initCur, Cur.bytes]
+  rw [hcb] at hscan hinc
+  have hlat := laterOK_facts cfg _ _ (layout_laterOK cfg as w hb)
+  have hk0 := hk ((layoutC cfg w as ([], [])).1)
+  have hpos0 : (gh (initBytes cfg sy ty ++ (layoutC cfg w as ([], [])).1)).pos = 0 := by simpa [initCur] using hk0.2.1
+  have hcrc0 : (gh (initBytes cfg sy ty ++ (layoutC cfg w as ([], [])).1)).crc = 0 := by simpa [initCur] using hk0.2.2
+  have hH : (allFiles cfg w as (initBytes cfg sy ty)).map gh
+      = gh (initBytes cfg sy ty ++ (layoutC cfg w as ([], [])).1) :: (layoutC cfg w as ([], [])).2.map hdrOf := by
+    simp [allFiles, hlat.2.1]
+  have hidx : indexByPos 0 (gh (initBytes cfg sy ty ++ (layoutC cfg w as ([], [])).1) :: (layoutC cfg w as ([], [])).2.map hdrOf) 0 0 = 0 := by
+    have := indexByPos_split 0 [gh (initBytes cfg sy ty ++ (layoutC cfg w as ([], [])).1)] ((layoutC cfg w as ([], [])).2.map hdrOf) 0 0
+      (by simp) (by intro h hh; simp at hh; subst hh; omega)
+      (by intro h hh; rw [← hlat.2.1] at hh; have := hlat.2.2.2 h (List.mem_of_mem_head? hh); omega)
+    simpa using this
+  rw [hH] at hscan
+  -- the first file from its start
+  have hat0 : At { pos := 0, crc := 0, rest := initBytes cfg sy ty ++ (layoutC cfg w as ([], [])).1,
+                   slack := (initBytes cfg sy ty ++ (layoutC cfg w as ([], [])).1).length % 4, dk := false, ts := ts0, commitPos := 0,
+                   eng := ⟨0, [], []⟩ } 0 0
+      ((le32 magicStart ++ (le32 cfg.schema ++ sy)) ++ ((le32 magicTag ++ ty) ++ (layoutC cfg w as ([], [])).1)) :=
+    ⟨rfl, rfl, by simp [initBytes, List.append_assoc], rfl, rfl, by simp [initBytes, List.append_assoc]⟩
+  obtain ⟨s1, st1, at1, ev1⟩ := step_start cfg _ 0 0 (le32 cfg.schema ++ sy) _ (by simp [hsy]) hat0
+  obtain ⟨s2, st2, at2, ev2⟩ := step_tag cfg s1 _ _ ty _ hty at1
+  have at2' : At s2 w.offG w.crc (layoutC cfg w as ([], [])).1 := by
+    have e : cfg.upd (cfg.upd 0 (le32 magicStart ++ (le32 cfg.schema ++ sy))) (le32 magicTag ++ ty) = w.crc := by
+      rw [hupd, hw.2]; rfl
+    rw [hw.1, ← e]; simpa using at2
+  have hlen : (initBytes cfg sy ty ++ (layoutC cfg w as ([], [])).1).length = 44 + (layoutC cfg w as ([], [])).1.length := by
+    simp [initBytes, hsy, hty]; omega
+  have hrep := replay_rotating cfg hm hsvc as w s2 ((44 + (layoutC cfg w as ([], [])).1.length) / 2 + 2) hsz hb at2' (by omega)
+  have hfuel : (initBytes cfg sy ty ++ (layoutC cfg w as ([], [])).1).length / 2 + 4
+      = ((44 + (layoutC cfg w as ([], [])).1.length) / 2 + 2) + 1 + 1 := by rw [hlen]
+  have hseek : seek cfg (gh (initBytes cfg sy ty ++ (layoutC cfg w as ([], [])).1)) 0 none ts0
+      = .ok (0, 0, initBytes cfg sy ty ++ (layoutC cfg w as ([], [])).1, ts0) := by
+    simp [seek, hpos0, hcrc0, gh_data]
+  simp only [readAll, hscan, hpos0, Int.lt_irrefl, if_false, hidx, List.drop_zero, readFiles_first, readFile, hseek, hfuel,
+    readLoop_cont _ st1, readLoop_cont _ st2] at hr
+  rw [hr]
+  exact ⟨hrep.1, by simpa [ev2, ev1] using hrep.2.1, hrep.2.2.1, hrep.2.2.2⟩
+
+
+/-! ### the writer loop writes the layout (Lemmas/BinlogWB) -/
+
+theorem flat_nil (cfg : Cfg) (w : WS) (as : List Ap) (h : flat cfg w as = []) : as = [] := by
+  cases as with
+  | nil => rfl
+  | cons a as =>
+    have := apA_length cfg w a
+    have hl := congrArg List.length h
+    simp only [flat, List.length_append, List.length_nil] at hl
+    omega
+
+/-- **writeBuffer contents = layout chunks.**  The writer state is what the accepted appends `as` made of a state `w0` with an
+    empty buffer; one loop iteration (any flags) then leaves on disk: the files that were already closed, followed by exactly
+    `allFiles` — the current file extended by the rest of its chunk and the later chunks of `layoutC`, byte for byte. -/
+theorem iter_files_layout (cfg : Cfg) (s : Sys) (w0 : WS) (as : List Ap) (t st : Bool)
+    (hb : w0.buff = []) (hr : w0.rotPos = []) (hw : s.w = runAll cfg w0 as) :
+    ((iter s t st).l.older.reverse ++ [(iter s t st).l.cur]).map (·.data)
+      = s.l.older.reverse.map (·.data) ++ allFiles cfg w0 as s.l.cur.data := by
+  obtain ⟨hbuf, hrp⟩ := runAll_buff cfg as w0
+  rw [← hw, hb] at hbuf
+  rw [← hw, hr, hb] at hrp
+  simp only [List.nil_append, List.length_nil] at hbuf hrp
+  have hsplit := allFiles_append cfg as [] w0 (mkCur s.l.cur.data)
+  have hall : allFiles cfg w0 as s.l.cur.data
+      = (splitC cfg w0 as (mkCur s.l.cur.data)).1 ++ [(splitC cfg w0 as (mkCur s.l.cur.data)).2.bytes] := by
+    have : (mkCur s.l.cur.data).bytes = s.l.cur.data := by simp [mkCur, Cur.bytes]
+    rw [List.append_nil, this] at hsplit
+    rw [hsplit]; simp [allFiles, layoutC]
+  -- the files after `written`
+  have hwr : (written s).cur.data = (splitC cfg w0 as (mkCur s.l.cur.data)).2.bytes ∧
+      (written s).older.map (·.data) = (splitC cfg w0 as (mkCur s.l.cur.data)).1.reverse ++ s.l.older.map (·.data) := by
+    unfold written
+    split
+    · rename_i he
+      have : flat cfg w0 as = [] := by rw [← hbuf]; simpa [List.isEmpty_iff] using he
+      have := flat_nil cfg w0 as this
+      subst this
+      simp [splitC, mkCur, Cur.bytes]
+    · have := writeBuffer_split cfg as w0 s.l [] 0 (Nat.le_refl _)
+      simp only [List.nil_append, List.length_nil, List.drop_nil, List.append_nil] at this
+      rw [hbuf, hrp]
+      exact this
+  have hit : (iter s t st).l.cur.data = (written s).cur.data ∧ (iter s t st).l.older = (written s).older := by
+    simp only [iter]; split <;> simp [syncCommit, FileS.sync]
+  rw [List.map_append, List.map_reverse, hit.2, hwr.2, hall]
+  simp [hit.1, hwr.1]
 
 
 /-! ### the driver's crc32 satisfies the streaming law -/
@@ -745,6 +965,43 @@ set_option maxRecDepth 20000 in
 example : ((run cfgR sys0 opsT).l.commits.map (·.off)) = [116, 24, 12] ∧ syncedEnd (run cfgR sys0 opsT).l = 116 := by decide
 
 
+
+/-! round 3: readAll end to end, replay from 0, files of the writer loop, truncation that removes later files -/
+
+def syT : Bytes := List.replicate 16 1
+def tyT : Bytes := List.replicate 16 2
+/-- the writer of the instance above, started behind the 44-byte head of a fresh binlog -/
+def wS : WS := { wT with crc := updT 0 (initBytes cfgX syT tyT) }
+
+example : StartsAt cfgX wS syT tyT := ⟨rfl, rfl⟩
+set_option maxRecDepth 60000 in
+example : (allFiles cfgX wS apsT (initBytes cfgX syT tyT)).map (·.length) = [156, 80] := by decide
+-- readAll_from_start: two files, LevStart + tag skipped, all five events through the rotation
+set_option maxRecDepth 60000 in
+example : (readAll cfgX (allFiles cfgX wS apsT (initBytes cfgX syT tyT)) 0 none 0 ⟨0, [], []⟩).eng.evs.map (·.1)
+    = [224, 192, 84, 56, 44] := by decide
+-- readAll_from_commit: resume at the commit behind the second append (offset 84, first file) with its meta: the remaining three
+-- events, the last two from the second file
+set_option maxRecDepth 60000 in
+example : (readAll cfgX (allFiles cfgX wS apsT (initBytes cfgX syT tyT)) 84
+      (some ⟨84, (runAll cfgX wS (apsT.take 2)).crc, 9⟩) 0 ⟨84, [], []⟩).eng.evs.map (·.1) = [224, 192, 84] := by decide
+-- ... and a meta with a wrong checksum is refused by the seek (the hypothesis `wk.crc` of the theorem matters)
+set_option maxRecDepth 60000 in
+example : (readAll cfgX (allFiles cfgX wS apsT (initBytes cfgX syT tyT)) 84 (some ⟨84, 12345, 9⟩) 0 ⟨84, [], []⟩).err
+    = some .seekCrc := by decide
+-- truncate_tail_files: the second file is gone and the first chunk (112 bytes behind the head) is cut inside its ROTATE_TO
+-- (t = 100): the three events of the chunk; cut at 20 bytes: the first two
+set_option maxRecDepth 60000 in
+example : [20, 100, 112].map (completeC cfgX wS apsT) = [2, 3, 3] := by decide
+set_option maxRecDepth 60000 in
+example : (finish cfgX (readLoop cfgX 40 { sT ((layoutC cfgX wS apsT ([], [])).1.take 100) with crc := wS.crc }) []).2.2.2.1.evs.map (·.1)
+    = [84, 56, 44] := by decide
+-- iter_files_layout: three appends (the third rotates at chunk size 40) into an empty first file, one stop iteration
+def aps2 : List Ap := [⟨[1, 2, 3], true, 5, 11, 12⟩, ⟨[4], false, 5, 11, 12⟩, ⟨[5, 6, 7, 8, 9, 10, 11, 12, 13], false, 6, 11, 12⟩]
+def sysA : Sys := { sys0 with w := runAll cfgR sys0.w aps2 }
+set_option maxRecDepth 60000 in
+example : ((iter sysA false true).l.older.reverse ++ [(iter sysA false true).l.cur]).map (·.data.length) = [80, 36] := by decide
+
 /-! shutdown window -/
 
 example : CleanSynced sys0.l := fun _ => by decide
@@ -807,14 +1064,12 @@ example : (readAll cfgT [chunk0, encRotFrom 5 72 0 999 2] 0 none 0 eng0).err = n
 
 /-
   STILL NOT PROVED (covered by the correspondence + oracle of go/C18):
-  * the `readAllFromPosition` wrapper around the proved core: `scan`/`sortHdrs` of the files (the header of every later chunk
-    IS proved to parse to `hdrOf`, `scanHeader_rotFrom`), `indexByPos` picking the chunk of the commit position, and that the
-    hypotheses of `seek_resume` hold for the writer's files (length/checksum accounting of the bytes in front of the commit
-    position).  `replay_rotating`/`truncate_prefix` start after that wrapper (state `At`), `seek_resume` is the seek step.
-  * reading the LevStart/tag records of the very first chunk (replay from offset 0 rather than from the first commit at 44).
-  * `writeBuffer` splitting the buffer at `rotatePos` into exactly the chunks of `layoutC` (`apNext_buff` ties the buffer bytes
-    and the recorded positions to the layout; `writeBuffer_written` proves the byte accounting, not the contents).
-  * truncation that removes whole later files (a chunk ending in ROTATE_TO with its successor deleted).
+  * `readAll_from_commit` is stated for a binlog written in ONE session (the writer starts behind the head of a fresh
+    binlog); a binlog continued by a restarted writer is the same layout with `wsInit` as start state — the generic
+    `readAll_resume` (any chunk `c0` with `Acc`/`CurOK`) covers it once `Acc` is shown for `wsInit`, which is not done.
+  * the truncation theorems (`truncate_prefix`, `truncate_tail_files`) are stated behind the seek (state `At`, `finish`), not
+    through `readAll`: lifting them needs `scan_allFiles` for the cut file list (the header part is unchanged by the cut).
+  * resume WITHOUT meta through `readAll` (`seek_nometa` is proved, the wrapper instance is not).
 -/
 
 end SH.C18
